@@ -162,6 +162,7 @@ func runMISSERR(c *Ctx) {
 }
 
 type fetch struct {
+	ins  ssa.Instruction // the call or lookup
 	what string
 	good ssa.Value // error value (must be nil) or ok value (must be true)
 	isOK bool
@@ -184,6 +185,7 @@ func missErrFunc(c *Ctx, fr *frame, done map[*ssa.Function]bool) {
 	}
 	errIdx := fn.Signature.Results().Len() - 1
 	var helpers []*frame
+	var allFetch []fetch // the reads/lookups whose data some success return returns
 	type verdict struct {
 		bad  []string
 		und  []string
@@ -204,10 +206,10 @@ func missErrFunc(c *Ctx, fr *frame, done map[*ssa.Function]bool) {
 			order = append(order, r)
 		}
 		var fs []fetch
-		var und []string
+		var und, altered []string
 		seen := map[ssa.Value]bool{}
-		var slice func(x ssa.Value, d int)
-		slice = func(x ssa.Value, d int) {
+		var slice func(x ssa.Value, d int, below bool)
+		slice = func(x ssa.Value, d int, below bool) {
 			if x == nil || seen[x] || d > 24 {
 				return
 			}
@@ -222,7 +224,7 @@ func missErrFunc(c *Ctx, fr *frame, done map[*ssa.Function]bool) {
 						if sr := soleReturn(k.fn); sr != nil && y.Index < len(sr.Results) {
 							if dx, isEx := ir.ResolveCell(sr.Results[y.Index]).(*ssa.Extract); isEx && dx.Index == 0 {
 								if lk, isLk := dx.Tuple.(*ssa.Lookup); isLk && lk.CommaOk {
-									f := fetch{what: "map lookup in " + k.fn.Name(), isOK: true}
+									f := fetch{ins: t, what: "map lookup in " + k.fn.Name(), isOK: true}
 									for j, rv := range sr.Results {
 										if ox, isOx := ir.ResolveCell(rv).(*ssa.Extract); isOx && ox.Tuple == ssa.Value(lk) && ox.Index == 1 {
 											if ex := extractOf(t, j); ex != nil {
@@ -240,24 +242,24 @@ func missErrFunc(c *Ctx, fr *frame, done map[*ssa.Function]bool) {
 						}
 					}
 					if e, has := errorValue(t); has {
-						fs = append(fs, fetch{what: callName(t), good: e})
+						fs = append(fs, fetch{ins: t, what: callName(t), good: e})
 						if k := fr.child(t); k != nil {
 							helpers = append(helpers, k) // the helper's own success returns are checked too
-						} else if h := t.Call.StaticCallee(); h != nil && h.Blocks != nil && isOwn(P, h) {
+						} else if h := ir.Callee(t.Call); h != nil && h.Blocks != nil && isOwn(P, h) {
 							und = append(und, "data is fetched through helper "+h.Name()+", nested deeper than the rule follows")
 						}
 					}
 					for _, a := range t.Call.Args {
-						slice(a, d+1)
+						slice(a, d+1, true)
 					}
 					if t.Call.IsInvoke() {
-						slice(t.Call.Value, d+1)
+						slice(t.Call.Value, d+1, true)
 					}
 				case *ssa.Lookup:
 					if !t.CommaOk {
 						return
 					}
-					f := fetch{what: "map lookup", isOK: true}
+					f := fetch{ins: t, what: "map lookup", isOK: true}
 					if ex := extractOf(t, 1); ex != nil {
 						f.good = ex
 					}
@@ -266,7 +268,7 @@ func missErrFunc(c *Ctx, fr *frame, done map[*ssa.Function]bool) {
 					}
 					fs = append(fs, f)
 				case *ssa.TypeAssert:
-					slice(t.X, d+1)
+					slice(t.X, d+1, below)
 				default:
 					und = append(und, fmt.Sprintf("data comes from %T", t))
 				}
@@ -274,35 +276,46 @@ func missErrFunc(c *Ctx, fr *frame, done map[*ssa.Function]bool) {
 				if _, isMap := y.X.Type().Underlying().(*types.Map); isMap {
 					fs = append(fs, fetch{what: "map lookup", miss: "the map is read without a presence test, so a miss yields empty data"})
 				} else {
-					slice(y.X, d+1)
+					slice(y.X, d+1, below)
 				}
 			case *ssa.Call:
 				if e, has := errorValue(y); has {
-					fs = append(fs, fetch{what: callName(y), good: e})
+					fs = append(fs, fetch{ins: y, what: callName(y), good: e})
+					for _, a := range y.Call.Args {
+						slice(a, d+1, true)
+					}
+					break
+				}
+				if !below {
+					// between the read and the return the bytes must stay exactly the bytes read
+					und = append(und, "the returned data passes through "+callName(y)+", which may change the bytes read")
 				}
 				for _, a := range y.Call.Args {
-					slice(a, d+1)
+					slice(a, d+1, below)
 				}
 			case *ssa.UnOp:
-				slice(y.X, d+1)
+				slice(y.X, d+1, below)
 			case *ssa.FieldAddr:
-				slice(y.X, d+1)
+				slice(y.X, d+1, below)
 			case *ssa.Field:
-				slice(y.X, d+1)
+				slice(y.X, d+1, below)
 			case *ssa.IndexAddr:
-				slice(y.X, d+1)
+				slice(y.X, d+1, below)
 			case *ssa.Index:
-				slice(y.X, d+1)
+				slice(y.X, d+1, below)
 			case *ssa.Slice:
-				slice(y.X, d+1)
+				if !below {
+					altered = append(altered, "a slice expression of the data read is returned, not exactly the bytes read")
+				}
+				slice(y.X, d+1, below)
 			case *ssa.MakeInterface:
-				slice(y.X, d+1)
+				slice(y.X, d+1, below)
 			case *ssa.ChangeInterface:
-				slice(y.X, d+1)
+				slice(y.X, d+1, below)
 			case *ssa.ChangeType:
-				slice(y.X, d+1)
+				slice(y.X, d+1, below)
 			case *ssa.Convert:
-				slice(y.X, d+1)
+				slice(y.X, d+1, below)
 			case *ssa.Phi:
 				und = append(und, "returned data is a φ of several sources")
 			case *ssa.Const, *ssa.Parameter, *ssa.Alloc, *ssa.MakeSlice, *ssa.Global, *ssa.FreeVar, *ssa.MakeMap:
@@ -310,10 +323,24 @@ func missErrFunc(c *Ctx, fr *frame, done map[*ssa.Function]bool) {
 				und = append(und, fmt.Sprintf("returned data flows through %T", y))
 			}
 		}
-		slice(r.Results[0], 0)
+		slice(r.Results[0], 0, false)
 		if len(und) > 0 {
 			v.und = append(v.und, und...)
 			return
+		}
+		v.bad = append(v.bad, altered...)
+		for _, f := range fs {
+			if f.ins != nil && f.good != nil && f.miss == "" {
+				known := false
+				for _, g := range allFetch {
+					if g.ins == f.ins {
+						known = true
+					}
+				}
+				if !known {
+					allFetch = append(allFetch, f)
+				}
+			}
 		}
 		if len(fs) == 0 {
 			v.bad = append(v.bad, "returns data that does not come from any lookup or read (constant/empty) together with a possibly nil error")
@@ -356,6 +383,7 @@ func missErrFunc(c *Ctx, fr *frame, done map[*ssa.Function]bool) {
 			missErrFunc(c, k, done)
 		}
 	}()
+	missErrReject(c, fn, errIdx, allFetch)
 	for i, r := range order {
 		v := per[r]
 		what := fmt.Sprintf("success return #%d of %s", i+1, ir.FuncName(fn))
@@ -367,6 +395,76 @@ func missErrFunc(c *Ctx, fr *frame, done map[*ssa.Function]bool) {
 		default:
 			c.OK(P.InstrPos(r), what, strings.Join(uniq(v.ok), "; "), false)
 		}
+	}
+}
+
+// missErrReject: once every read/lookup executed on a path has succeeded,
+// the function returns the data: no error return may follow that is not the
+// failure of another call (a rejection that depends on the length or content
+// of the bytes read makes a successfully stored value unloadable).
+func missErrReject(c *Ctx, fn *ssa.Function, errIdx int, fetches []fetch) {
+	if len(fetches) == 0 {
+		return
+	}
+	P := c.P
+	id := map[ssa.Instruction]int{}
+	for i, f := range fetches {
+		id[f.ins] = i
+	}
+	errCalls := callsReturningError(fn)
+	bad := map[*ssa.Return]string{}
+	var order []*ssa.Return
+	w := &pwalker{fn: fn}
+	w.onInstr = func(st *pstate, ins ssa.Instruction) {
+		if i, ok := id[ins]; ok {
+			tag := fmt.Sprintf("%d,", i)
+			if !strings.Contains(","+st.aux, ","+tag) {
+				st.aux += tag
+			}
+		}
+	}
+	w.onReturn = func(st *pstate, r *ssa.Return) {
+		if errIdx >= len(r.Results) || nilness(st, r.Results[errIdx]) != triYes || st.aux == "" {
+			return
+		}
+		for i, f := range fetches {
+			if !strings.Contains(","+st.aux, fmt.Sprintf(",%d,", i)) {
+				continue
+			}
+			if f.isOK {
+				if st.facts[f.good] != triYes {
+					return
+				}
+			} else if nilness(st, f.good) != triNo {
+				return
+			}
+		}
+		// the error returned is (or follows) the failure of some other call
+		for _, call := range errCalls {
+			switch staticID(call) {
+			case "fmt.Errorf", "errors.New":
+				continue
+			}
+			if e, _ := errorValue(call); e != nil && nilness(st, e) == triYes {
+				return
+			}
+		}
+		if _, seen := bad[r]; !seen {
+			bad[r] = st.pathString()
+			order = append(order, r)
+		}
+	}
+	w.run()
+	if w.overflow {
+		c.Undecided(fn, P.Pos(fn.Pos()), "paths", "path exploration exceeded its bound")
+		return
+	}
+	for _, r := range order {
+		c.Violation(fn, P.InstrPos(r), "error return after a successful read",
+			ir.FuncName(fn)+" can return an error although every lookup/read on that path succeeded and no other call failed: the outcome depends on the length or content of the bytes read, so some successfully stored values cannot be loaded", bad[r])
+	}
+	if len(order) == 0 {
+		c.OK(P.Pos(fn.Pos()), "no rejection after a successful read in "+ir.FuncName(fn), "every error return follows a failed lookup, read or other call", false)
 	}
 }
 
@@ -480,3 +578,322 @@ func isPointer(t types.Type) bool {
 }
 
 var _ = sort.Strings
+
+// ===========================================================================
+// CTORVERBATIM
+
+func init() {
+	Register(&Rule{
+		ID: "CTORVERBATIM", Props: []string{"C18"}, Min: 3,
+		Doc: "the configuration fields that Load/Store of a backend use to address objects (file base path; S3 prefix and bucket) are stored " +
+			"only by constructors (into a freshly built value) and verbatim from a constructor parameter: no concatenation, trimming, Clean or Join " +
+			"changes the names under which nodes are read and written relative to what the caller configured.",
+		Run: runCTORVERBATIM,
+	})
+	Register(&Rule{
+		ID: "PREFIXIDENT", Props: []string{"C03"}, Min: 3,
+		Doc: "NodeURLPrefix is an injective function of the store's identity: it is assembled from the full location fields (or the receiver's " +
+			"address) by concatenation/fmt verbs without precision only; no Base/last-element/trim/slice/case-folding step lies between the " +
+			"location and the prefix (two distinct stores sharing a NodeCache must never share a prefix, or a flush to one is skipped).",
+		Run: runPREFIXIDENT,
+	})
+}
+
+// frameInstrs enumerates the instructions of fr.fn and of the helper frames below it.
+func frameInstrs(fr *frame, visit func(ins ssa.Instruction, fr *frame)) {
+	for _, b := range fr.fn.Blocks {
+		if b == fr.fn.Recover {
+			continue
+		}
+		for _, ins := range b.Instrs {
+			visit(ins, fr)
+			if call, ok := ins.(*ssa.Call); ok {
+				if k := fr.child(call); k != nil {
+					frameInstrs(k, visit)
+				}
+			}
+		}
+	}
+}
+
+// configFields: string fields of the receiver that Load or Store (or their
+// helpers) read, or whose address they hand out.
+func configFields(c *Ctx, b backendImpl) []string {
+	loc := map[string]bool{}
+	for _, fn := range []*ssa.Function{b.load, b.store} {
+		frameInstrs(rootFrame(c.P, fn), func(ins ssa.Instruction, fr *frame) {
+			if fr.recv == nil || !isRootRecv(fr) {
+				return
+			}
+			if v, ok := ins.(ssa.Value); ok {
+				if f, ok := fr.recv.fieldOf(v); ok && isStringType(v.Type()) {
+					loc[f] = true
+				}
+				if f, ok := fr.recv.fieldAddrOf(v); ok {
+					if pt, ok := v.Type().Underlying().(*types.Pointer); ok && isStringType(pt.Elem()) {
+						loc[f] = true
+					}
+				}
+			}
+		})
+	}
+	var out []string
+	for f := range loc {
+		out = append(out, f)
+	}
+	sort.Strings(out)
+	return out
+}
+
+// fieldStoresOf lists the stores into field `field` of values of type T in package pkg.
+func fieldStoresOf(c *Ctx, b backendImpl, field string) []*ssa.Store {
+	var out []*ssa.Store
+	for _, fn := range c.P.Funcs {
+		if fn.Pkg.Pkg.Path() != b.pkg {
+			continue
+		}
+		for _, blk := range fn.Blocks {
+			for _, ins := range blk.Instrs {
+				s, ok := ins.(*ssa.Store)
+				if !ok {
+					continue
+				}
+				fa, ok := s.Addr.(*ssa.FieldAddr)
+				if !ok {
+					continue
+				}
+				pt, ok := fa.X.Type().Underlying().(*types.Pointer)
+				if !ok || !types.Identical(pt.Elem(), b.named) || ir.FieldName(fa.X.Type(), fa.Field) != field {
+					continue
+				}
+				out = append(out, s)
+			}
+		}
+	}
+	return out
+}
+
+func runCTORVERBATIM(c *Ctx) {
+	P := c.P
+	for _, b := range backendImpls(c, backendPkgs...) {
+		for _, field := range configFields(c, b) {
+			stores := fieldStoresOf(c, b, field)
+			if len(stores) == 0 {
+				c.Note("%s.%s is read by Load/Store but never assigned in the package (left to the user of the struct)", b.String(), field)
+				continue
+			}
+			for _, s := range stores {
+				fn := s.Parent()
+				fa := s.Addr.(*ssa.FieldAddr)
+				what := fmt.Sprintf("store to %s.%s in %s", b.named.Obj().Name(), field, ir.FuncName(fn))
+				_, fresh := fa.X.(*ssa.Alloc)
+				if ri := newRecvInfo(fn); ri != nil && ri.isBase(fa.X) {
+					fresh = false // the (copy of the) receiver of a method
+				}
+				if !fresh {
+					c.Violation(fn, P.InstrPos(s), "configuration field "+field+" written outside a constructor",
+						fmt.Sprintf("%s assigns %s.%s of an existing store: Load and Store afterwards address different objects than before", ir.FuncName(fn), b.named.Obj().Name(), field))
+					continue
+				}
+				v := ir.Strip(ir.ResolveCell(s.Val))
+				if p, ok := v.(*ssa.Parameter); ok && p.Parent() == fn {
+					c.OK(P.InstrPos(s), what, "stored verbatim from parameter "+p.Name(), false)
+					continue
+				}
+				c.Violation(fn, P.InstrPos(s), "configuration field "+field+" not stored verbatim",
+					fmt.Sprintf("%s stores %s into %s.%s instead of its parameter unchanged: the object names Load/Store use differ from what the caller configured (nodes written under the configured name are no longer found)", ir.FuncName(fn), descValue(v), b.named.Obj().Name(), field))
+			}
+		}
+	}
+}
+
+// ===========================================================================
+// PREFIXIDENT
+
+var prefixInjective = map[string]bool{
+	"path/filepath.Clean": true, "path/filepath.ToSlash": true, "path/filepath.FromSlash": true, "path.Clean": true,
+	"net/url.PathEscape": true, "net/url.QueryEscape": true, "strconv.Quote": true, "encoding/hex.EncodeToString": true,
+	"path/filepath.Abs": true, "path/filepath.Join": true, "path.Join": true,
+}
+
+var prefixLossy = map[string]bool{
+	"path/filepath.Base": true, "path.Base": true, "path/filepath.Ext": true, "path.Ext": true, "path/filepath.VolumeName": true,
+	"path/filepath.Dir": true, "path.Dir": true,
+	"strings.TrimSuffix": true, "strings.TrimPrefix": true, "strings.Trim": true, "strings.TrimLeft": true, "strings.TrimRight": true,
+	"strings.TrimSpace": true, "strings.ToLower": true, "strings.ToUpper": true, "strings.Title": true, "strings.Replace": true,
+	"strings.ReplaceAll": true, "strings.Split": true, "strings.SplitN": true, "strings.Fields": true, "strings.Map": true,
+	"strings.Repeat": false,
+}
+
+type prefixCheck struct {
+	c     *Ctx
+	b     backendImpl
+	bad   []string
+	und   []string
+	depth int
+}
+
+// sprintfVerbsOK: only verbs that print their operand completely.
+func sprintfVerbsOK(format string) (ok bool, why string) {
+	for i := 0; i < len(format); i++ {
+		if format[i] != '%' {
+			continue
+		}
+		i++
+		if i >= len(format) {
+			return false, "dangling %"
+		}
+		switch format[i] {
+		case '%', 's', 'v', 'd', 'q', 'p', 'x', 'X':
+		default:
+			return false, "verb %" + string(format[i]) + " (flags, width or precision can truncate the operand)"
+		}
+	}
+	return true, ""
+}
+
+// value checks that v is assembled injectively from complete location
+// values. ri is the receiver info of the function v lives in (nil in
+// constructors, where parameters are the leaves).
+func (pc *prefixCheck) value(v ssa.Value, ri *recvInfo, d int) {
+	if v == nil || d > 12 {
+		return
+	}
+	v = ir.Strip(ir.ResolveCell(v))
+	switch x := v.(type) {
+	case *ssa.Const, *ssa.Parameter:
+		return
+	case *ssa.BinOp:
+		if x.Op == token.ADD && isStringType(x.Type()) {
+			pc.value(x.X, ri, d+1)
+			pc.value(x.Y, ri, d+1)
+			return
+		}
+		pc.bad = append(pc.bad, "operator "+x.Op.String())
+	case *ssa.UnOp:
+		if x.Op != token.MUL {
+			pc.und = append(pc.und, "operator "+x.Op.String())
+			return
+		}
+		if ri != nil {
+			if f, ok := ri.fieldAddrOf(x.X); ok {
+				pc.field(f)
+				return
+			}
+		}
+		pc.und = append(pc.und, "a value loaded from "+ir.Sym(x.X))
+	case *ssa.Field:
+		if ri != nil {
+			if f, ok := ri.fieldOf(x); ok {
+				pc.field(f)
+				return
+			}
+		}
+		pc.und = append(pc.und, "field of "+ir.Sym(x.X))
+	case *ssa.Phi:
+		for _, e := range x.Edges {
+			pc.value(e, ri, d+1)
+		}
+	case *ssa.Extract:
+		pc.value(x.Tuple, ri, d+1)
+	case *ssa.Slice:
+		pc.bad = append(pc.bad, "a slice expression (truncation)")
+	case *ssa.Index, *ssa.Lookup, *ssa.IndexAddr:
+		pc.bad = append(pc.bad, "an index expression (a single element)")
+	case *ssa.Convert:
+		pc.value(x.X, ri, d+1)
+	case *ssa.Call:
+		id := staticID(x)
+		args := x.Call.Args
+		switch {
+		case id == "fmt.Sprintf" || id == "fmt.Sprint":
+			rest := args
+			if id == "fmt.Sprintf" {
+				format, ok := constString(args[0])
+				if !ok {
+					pc.und = append(pc.und, "a non-constant format")
+					return
+				}
+				if ok, why := sprintfVerbsOK(format); !ok {
+					pc.bad = append(pc.bad, "fmt.Sprintf with "+why)
+					return
+				}
+				rest = args[1:]
+			}
+			for _, a := range rest {
+				if el := variadicElems(a); el != nil {
+					for _, e := range el {
+						pc.value(e, ri, d+1)
+					}
+				} else if !ir.IsNilConst(a) {
+					pc.und = append(pc.und, "a variadic argument list built elsewhere")
+				}
+			}
+		case prefixLossy[id]:
+			pc.bad = append(pc.bad, callName(x)+" (keeps only part of its operand, or folds distinct operands together)")
+		case prefixInjective[id]:
+			for _, a := range args {
+				if el := variadicElems(a); el != nil {
+					for _, e := range el {
+						pc.value(e, ri, d+1)
+					}
+				} else {
+					pc.value(a, ri, d+1)
+				}
+			}
+		default:
+			pc.und = append(pc.und, "a call of "+callName(x)+", of which the rule does not know whether it is injective")
+		}
+	case *ssa.Alloc:
+		// the receiver itself (identity through %p)
+	default:
+		pc.und = append(pc.und, fmt.Sprintf("%T", v))
+	}
+}
+
+// field: the prefix reads receiver field f. A location field read by
+// Load/Store is complete by construction (CTORVERBATIM); a derived field must
+// itself be assembled injectively by every function that stores it.
+func (pc *prefixCheck) field(f string) {
+	pc.depth++
+	defer func() { pc.depth-- }()
+	if pc.depth > 3 {
+		return
+	}
+	for _, s := range fieldStoresOf(pc.c, pc.b, f) {
+		pc.value(s.Val, newRecvInfo(s.Parent()), 0)
+	}
+}
+
+func runPREFIXIDENT(c *Ctx) {
+	P := c.P
+	for _, b := range backendImpls(c, backendPkgs...) {
+		pfx := P.Method(b.pkg, b.named.Obj().Name(), "NodeURLPrefix")
+		if pfx == nil {
+			c.AnchorMissing("NodeURLPrefix of " + b.String())
+			continue
+		}
+		rets := ir.Returns(pfx)
+		if len(rets) == 0 {
+			c.Undecided(pfx, P.Pos(pfx.Pos()), "no return", "NodeURLPrefix never returns")
+			continue
+		}
+		ri := newRecvInfo(pfx)
+		for _, r := range rets {
+			if r.Block() == pfx.Recover || len(r.Results) != 1 {
+				continue
+			}
+			pc := &prefixCheck{c: c, b: b}
+			pc.value(r.Results[0], ri, 0)
+			switch {
+			case len(pc.bad) > 0:
+				c.Violation(pfx, P.InstrPos(r), "prefix not injective in the store location",
+					fmt.Sprintf("NodeURLPrefix of %s passes the store's location through %s: two stores at different locations can report the same prefix, and with a shared NodeCache a node flushed to one is then never written to the other", b.String(), strings.Join(uniq(pc.bad), "; ")))
+			case len(pc.und) > 0:
+				c.Undecided(pfx, P.InstrPos(r), "prefix construction", "cannot decide whether the prefix is injective: it involves "+strings.Join(uniq(pc.und), "; "))
+			default:
+				c.OK(P.InstrPos(r), "NodeURLPrefix of "+b.String(), "assembled from complete fields / the receiver's address by concatenation and full-width verbs only", false)
+			}
+		}
+	}
+}
